@@ -74,7 +74,7 @@ prop(
 
 prop(
     'C07', 'other',
-    'The tempo sweep of O2JMap.read_pkgs is verified as a loop-body unit from an arbitrary state (any number of tempo events): consuming an event advances the running time by the elapsed measures at the active tempo (240000/bpm ms per measure), stamps the event and makes its tempo active. The WHOLE of read_pkgs (the stable sort by measure, the split into notes and tempo events, the measure->time dictionary, trailing tempo events, hold length from the tail's time, the result lists) is additionally executed from the real source for 0..2 tempo events x 0..1 hits x 0..1 holds with symbolic measures and tempos against an order-free integral statement (shape-bounded). Byte decoding (struct), package framing, hold pairing and whole files are checked by running the real reader on generated OJN bytes (tempo packages in any file order) against an independent exact-rational OJN interpreter (bounded).',
+    'The tempo sweep of O2JMap.read_pkgs is verified as a loop-body unit from an arbitrary state (any number of tempo events): consuming an event advances the running time by the elapsed measures at the active tempo (240000/bpm ms per measure), stamps the event and makes its tempo active. The WHOLE of read_pkgs (the stable sort by measure, the split into notes and tempo events, the measure->time dictionary, trailing tempo events, hold length from the time of the tail, the result lists) is additionally executed from the real source for 0..2 tempo events x 0..1 hits x 0..1 holds with symbolic measures and tempos against an order-free integral statement (shape-bounded). Byte decoding (struct), package framing, hold pairing and whole files are checked by running the real reader on generated OJN bytes (tempo packages in any file order) against an independent exact-rational OJN interpreter (bounded).',
     'A1, A3 (struct), A5 (OJN layout in contracts/C07_bounded.py); state holds 1..3 tempo events',
     'contract-based deductive verification (loop-body unit, z3) + bounded run-time checking against an independent format interpreter',
     "DESIGN.md section 7 C07", explanation='loop-body unit proved for all states of the stated shape; byte-level reader only by the bounded stand-in',
